@@ -60,6 +60,65 @@ def _do(item):
         return {"item": item, "error": "%s: %s" % (type(e).__name__, e), "trace": traceback.format_exc()[-1500:]}
 
 
+def replay(prop, path):
+    """Re-run a recorded counterexample against the real code of /repo's working tree (natively, no solver).
+    exit 1 if the recorded disagreement is still there, 0 if it is gone, 2 if the file cannot be replayed."""
+    rec = json.load(open(path))
+    d = drv.Driver()
+    print("replaying %s (%s)" % (path, rec.get("text", "")[:200]))
+    if "source" in rec and rec.get("source") and "inputs" in rec and isinstance(rec["inputs"], list) and all(isinstance(x, str) for x in rec["inputs"]):
+        r = d.compile(rec["source"], dedup=rec.get("dedup", True) is not False, consts=rec.get("constants", "-") if isinstance(rec.get("constants"), str) else "-")
+        if r[0] != "ok":
+            print("compile: %s" % (r[:3],))
+            return 1 if rec.get("status") in ("compiler_panic", "shape") else 2
+        parties = [[int(c) for c in p] for p in rec["inputs"]]
+        out = d.eval(r[1], parties)
+        s_out = "".join(map(str, out))
+        pan = bool(out[0])
+        recv = 0
+        for b in out[1:161]:
+            recv = (recv << 1) | b
+        val = 0
+        for b in out[161:]:
+            val = (val << 1) | b
+        print("real circuit now: panic=%s record=%s value_bits=%d" % (pan, recv, val))
+        if "ref_panicked" in rec:
+            print("reference (recorded): panic=%s record=%s value_bits=%s" % (rec["ref_panicked"], rec.get("ref_record"), rec.get("ref_value_bits")))
+            q = rec.get("query")
+            rr = rec.get("ref_record") or {}
+            ref_rec = (rr.get("reason", 0) << 128) | sum(x << (32 * (3 - i)) for i, x in enumerate(rr.get("span", [0, 0, 0, 0])))
+            if q == "panic":
+                still = pan != rec["ref_panicked"]
+            elif q == "loc":
+                still = pan and rec["ref_panicked"] and recv != ref_rec
+            else:
+                still = (not rec["ref_panicked"]) and (pan or s_out == rec.get("real_output"))
+            print("disagreement still present" if still else "disagreement gone")
+            return 1 if still else 0
+        same = s_out == rec.get("real_output", rec.get("output_dedup_on"))
+        print("same output as recorded" if same else "output differs from the recorded one")
+        return 1 if same else 0
+    if rec.get("source") and "inputs" not in rec:
+        r = d.compile(rec["source"], dedup=rec.get("dedup", True) is not False, consts=rec.get("constants", "-") if isinstance(rec.get("constants"), str) else "-")
+        print("compile now: %s" % (str(r[:4])[:400],))
+        bad = r[0] != "ok" or (len(r) > 3 and r[3] != "valid")
+        print("problem still present" if bad else "compiles to a valid circuit now")
+        return 1 if bad else 0
+    for key, fn in (("circuit", None), ("ssa", None)):
+        if key in rec and isinstance(rec.get(key), str) and rec[key].startswith("i:"):
+            text = rec[key]
+            parties = [[int(c) for c in p] for p in rec.get("inputs", [])] if rec.get("inputs") and isinstance(rec["inputs"][0], str) else rec.get("inputs", [])
+            if "|p:" in text:
+                print("validate:", d.req("validater", text), "eval:", d.evalr(text, parties))
+            else:
+                print("validate:", d.req("validate", text), "eval:", d.evalc(text, parties))
+            if "register" in rec:
+                print("register eval:", d.evalr(rec["register"], parties))
+            return 1
+    print("nothing replayable in this file (keys: %s)" % sorted(rec))
+    return 2
+
+
 def main():
     ap = argparse.ArgumentParser()
     ap.add_argument("--property")
@@ -89,7 +148,7 @@ def main():
         return 2
     mod = importlib.import_module(prop.lower())
     if args.replay:
-        return mod.replay(args.replay, drv.Driver())
+        return replay(prop, args.replay)
     import glob
     for old in glob.glob(os.path.join(VERIF, "replays", "%s-*.json" % prop)):
         os.unlink(old)
